@@ -250,6 +250,8 @@ pub fn topic_http_safe() -> BoxedStrategy<String> {
         8 => proptest::sample::select(vec![
             "", "a", "ab", "abc", "a.b", "a.b.c", "b", "a-", "a~", "a_", "version", "head/x", "head",
             "03d4sq5pnxqgzj0xgqm4bwh0y", "x.register", "x.out", "casx", "imports",
+            // hierarchical topics, also with a trailing slash next to the same name without it
+            "a/", "a/b", "ab/", "a//", "a.b/",
         ]).prop_map(|s| s.to_string()),
         2 => "[a-c.~_-]{0,4}".prop_map(|s| s),
     ]
